@@ -2424,6 +2424,10 @@ func (m *c11Model) cellRef(v ssa.Value) (g *ssa.Global, idx ssa.Value, col int, 
 		g, idx = rowOf(f.X)
 		return g, idx, f.Field, g != nil
 	}
+	if _, isIx := v.(*ssa.Index); isIx { // element of a table of plain integers: (*tbl)[i]
+		g, idx = rowOf(v)
+		return g, idx, 0, g != nil
+	}
 	ld, isLd := c11Load(v)
 	if !isLd {
 		return nil, nil, 0, false
@@ -2470,9 +2474,9 @@ func (m *c11Model) cellRef(v ssa.Value) (g *ssa.Global, idx ssa.Value, col int, 
 // c11TableEmit is the static reading of "for i over all rows of tbl, in index order: if field&tbl[i].right != 0
 // (or == tbl[i].right) { write the byte tbl[i].letter }".
 type c11TableEmit struct {
-	rows       [][]int64
-	right, let int  // columns
-	eq         bool // gate is field&right == right
+	rows, lrows [][]int64 // rows holding the rights / the letters (the same table, or parallel arrays of equal length)
+	right, let  int       // columns
+	eq          bool      // gate is field&right == right
 }
 
 // tableEmit recognises emission e (a byte write inside a loop) as such a table-driven emission gated on the
@@ -2560,14 +2564,21 @@ func (m *c11Model) tableEmit(e c11Emit, field string) (*c11TableEmit, string) {
 	ld, isLd := c11Load(a)
 	f, _, isBF := m.boardField(c11LoadAddr(ld), nil)
 	g2, idx2, right, ok := m.cellRef(b)
-	if !isLd || !isBF || f != field || !ok || g2 != g || idx2 != idx || right == let {
-		return nil, "gate does not combine Board." + field + " with a cell of the same row as the byte written"
+	var rrows [][]int64
+	if ok {
+		rrows = m.constTable(g2) // the letters' own table, or a parallel array visited by the same counter
 	}
-	t := &c11TableEmit{rows: rows, right: right, let: let}
+	if !isLd || !isBF || f != field || !ok || idx2 != idx || (g2 == g && right == let) || len(rrows) != len(rows) {
+		return nil, "gate does not combine Board." + field + " with a cell of the same row (same table, or a parallel immutable array of the same length, at the same counter) as the byte written"
+	}
+	if len(rows) == 0 || right >= len(rrows[0]) || let >= len(rows[0]) {
+		return nil, "table columns do not match the cells read"
+	}
+	t := &c11TableEmit{rows: rrows, lrows: rows, right: right, let: let}
 	if k, isZero := c11Int(Y); op == token.NEQ && isZero && k == 0 {
 		return t, ""
 	}
-	if g3, idx3, col3, ok := m.cellRef(Y); op == token.EQL && ok && g3 == g && idx3 == idx && col3 == right {
+	if g3, idx3, col3, ok := m.cellRef(Y); op == token.EQL && ok && g3 == g2 && idx3 == idx && col3 == right {
 		t.eq = true
 		return t, ""
 	}
@@ -2583,9 +2594,9 @@ func c11LoadAddr(ld *ssa.UnOp) ssa.Value {
 
 // text: what the table-driven emission writes when the field holds x — arithmetic on the constant rows.
 func (t *c11TableEmit) text(x int64) (s string) {
-	for _, row := range t.rows {
+	for i, row := range t.rows {
 		if r := row[t.right]; (!t.eq && x&r != 0) || (t.eq && r != 0 && x&r == r) {
-			s += string(rune(row[t.let]))
+			s += string(rune(t.lrows[i][t.let]))
 		}
 	}
 	return s
@@ -2640,6 +2651,9 @@ func (m *c11Model) printerModel(fn *ssa.Function) (ems []c11Emit, bad string) {
 			callee := call.Call.StaticCallee()
 			name, args := c11Name(callee), call.Call.Args
 			add := func(e c11Emit) {
+				if k, isK := c11Int(e.val); e.kind == "byte" && isK && k >= 0 && k < 128 { // WriteByte('-'): a literal
+					e.kind, e.lit, e.val = "lit", string(rune(k)), nil
+				}
 				e.in, e.fields = at, fieldsOf(e.val, at.Block())
 				if site != nil { // also what the helper's own conditions and operands depend on
 					for f := range fieldsOf(e.val, in.Block()) {
